@@ -1215,6 +1215,33 @@ def restart_chain_scenarios():
     return out
 
 
+def overdue_dynamics_scenarios():
+    """hand-written histories: the transmission attempts at the 1..3 checks at which the time-triggered CAM is due fail
+    (while the PDU is built / in the coder / in the BTP request), heading / speed / position change meanwhile, so that the
+    CAM that finally goes out is a CONDITION-1 CAM with more than T_GenCamMax elapsed; afterwards the vehicle is steady:
+    the next CAM has to follow within T_GenCamMax + one check period (T_GenCam clamped from above as well)."""
+    out = []
+    t0 = 1_700_000_000_000
+    for what in ("speed", "heading", "position"):
+        for fk in (1, 2, 3):
+            for nfail in (1, 2, 3):
+                for due in (21, 31):         # index of the check (7 + 100 i ms) at which condition 2 is due: CAMs at 7, 107, 1107, ...
+                    ev = [[0, "start"]]
+                    change_at = 7 + 100 * due + 30
+                    for k in range(0, 100 * due + 3600, 50):
+                        tpv = {"time": iso(t0 + k), "lat": 41.0, "lon": 2.0, "track": 90.0, "speed": 10.0}
+                        if k >= change_at:
+                            if what == "speed":
+                                tpv["speed"] = 11.0
+                            elif what == "heading":
+                                tpv["track"] = 96.0
+                            else:
+                                tpv["lat"] = 41.0001       # about 11 m
+                        ev.append([k, "report", tpv])
+                    out.append(_cam_sc(t0, 100 * due + 3600, ev, mode="fail", fails=[[due + j, fk] for j in range(nfail)]))
+    return out
+
+
 def _vam_rep(t0, k, speed=1.0, track=90.0):
     return {"time": iso(t0 + k), "lat": 41.0, "lon": 2.0, "track": track, "speed": speed}
 
@@ -1301,6 +1328,7 @@ def run(ctx):
     check_cam_batch(ctx, cam_coder, boundary_scenarios(), "boundary", cam_var)
     check_cam_batch(ctx, cam_coder, race_and_failure_scenarios(), "race-fail", cam_var)
     check_cam_batch(ctx, cam_coder, restart_chain_scenarios(), "restart-chain", cam_var)
+    check_cam_batch(ctx, cam_coder, overdue_dynamics_scenarios(), "overdue-dynamics", cam_var)
     check_vam_batch(ctx, vam_coder, vam_boundary_scenarios(), gated, "boundary", lfa)
     check_vam_batch(ctx, vam_coder, vam_wrap_and_failure_scenarios(), gated, "wrap-fail", lfa)
     # 3 generated trajectories
@@ -1342,6 +1370,7 @@ def search(ctx):
     try:
         check_cam_batch(ctx, cam_coder, race_and_failure_scenarios(), "search-race-fail", cam_var)
         check_cam_batch(ctx, cam_coder, restart_chain_scenarios(), "search-restart-chain", cam_var)
+        check_cam_batch(ctx, cam_coder, overdue_dynamics_scenarios(), "search-overdue-dynamics", cam_var)
         check_vam_batch(ctx, vam_coder, vam_wrap_and_failure_scenarios(), gated, "search-wrap-fail", lfa)
         if ctx.violations:
             return
